@@ -107,7 +107,12 @@ class GcodeHandlers(object):
         arcLength = abs(angularTravel) * radius
         # Always produce at least one segment (as Marlin does), so a zero-length sweep to a
         # different end point cannot divide by zero below.
-        numSegments = max(1, int(math.ceil(arcLength / MM_PER_ARC_SEGMENT)))
+        if (math.isinf(arcLength) or math.isnan(arcLength)):
+            # Coordinates beyond the range of a float (inf/nan) cannot be sampled; just use the end
+            # point instead of failing on the conversion to int below
+            numSegments = 1
+        else:
+            numSegments = max(1, int(math.ceil(arcLength / MM_PER_ARC_SEGMENT)))
 
         angle = math.atan2(-j, -i)
         angularIncrement = angularTravel / numSegments
